@@ -1,4 +1,5 @@
 import ProductMD.Proofs.C05TIDownOld
+import ProductMD.Proofs.C05TI00
 /-!
 C05, treeinfo down-conversion: decidability of the two extra side conditions of ≤ 0.3, and the kernel-decided examples of the
 theorems in Properties/C05.lean (kept here for its build time).
@@ -75,4 +76,59 @@ theorem ex_src_needed :
         | .ok t' => t'.variants.map fun v => v.paths
         | .error _ => []) = some [[("source_packages".toList, "bin".toList)]] := by decide +kernel
 
+/-- a pre-productmd file with nothing but `[general]`, two image sections, `[stage2]` and `[checksums]` -/
+def ex00 : Ini :=
+  [("general".toList, [("family".toList, "Foo Linux".toList), ("version".toList, "7.2".toList), ("arch".toList, "x86_64".toList),
+      ("timestamp".toList, "1417653911".toList), ("variant".toList, "Everything".toList), ("packagedir".toList, "Packages".toList),
+      ("repository".toList, "repo".toList), ("discnum".toList, "2".toList)]),
+   ("images-x86_64".toList, [("kernel".toList, "images/vmlinuz".toList)]),
+   ("images-xen".toList, [("kernel".toList, "images/xen/vmlinuz".toList)]),
+   ("stage2".toList, [("mainimage".toList, "LiveOS/squashfs.img".toList)]),
+   ("checksums".toList, [("images/boot.iso".toList, "sha256:ab".toList)])]
+
+/-- what is recovered from it: family and version (short name empty: the family is not in the table), arch, timestamp, the
+platforms of the image sections, the variant named by `variant` with id = uid = name, type `variant`, `packagedir` and
+`repository` as its paths, images, stage2, checksums, the disc number (total = number) -/
+theorem ex00_loaded :
+    Legacy.deserialize C04_fo ex00 = .ok
+      { headerVersion := currentVersion, release := ⟨"Foo Linux".toList, [], "7.2".toList⟩, isLayered := false, baseProduct := none,
+        tree := ⟨"x86_64".toList, .int 1417653911, ["x86_64".toList, "xen".toList]⟩,
+        variants := [.mk "Everything".toList "Everything".toList "Everything".toList "Everything".toList "variant".toList
+          [("packages".toList, "Packages".toList), ("repository".toList, "repo".toList)] []],
+        checksums := [("images/boot.iso".toList, "sha256".toList, "ab".toList)],
+        images := [("x86_64".toList, [("kernel".toList, "images/vmlinuz".toList)]), ("xen".toList, [("kernel".toList, "images/xen/vmlinuz".toList)])],
+        mainimage := some "LiveOS/squashfs.img".toList, instimage := none, discnum := some 2, totaldiscs := some 2 } := by
+  decide +kernel
+
+/-- the hypotheses of the section lemmas hold of it -/
+theorem ex00_hyps :
+    Ini.get ex00 sGeneral kArch = .ok "x86_64".toList ∧ (sections ex00).contains "x86_64".toList = false
+    ∧ hasOption ex00 sGeneral kTimestamp = true ∧ platforms00 "x86_64".toList (sections ex00) = ["x86_64".toList, "xen".toList]
+    ∧ Legacy.releaseShort00 "Foo Linux".toList = ("Foo Linux".toList, []) ∧ Legacy.version00 "7.2".toList = .ok "7.2".toList
+    ∧ hasOption ex00 sGeneral tVariant = true
+    ∧ (∀ s ∈ [pAddon ++ "Everything".toList, pAddon ++ (Str.splitOn '-' "Everything".toList).getLastD [],
+          pVariant ++ "Everything".toList, pVariant ++ (Str.splitOn '-' "Everything".toList).getLastD []], ex00.lookup s = none)
+    ∧ hasOption ex00 sGeneral kAddons = false ∧ hasOption ex00 sGeneral Legacy.kPackages = false
+    ∧ hasOption ex00 sGeneral kPackagedir = true ∧ hasOption ex00 sGeneral kRepository = true
+    ∧ hasOption ex00 sGeneral Legacy.kIdentity = false
+    ∧ Legacy.rstripSlash "repo".toList = "repo".toList ∧ Str.endsWith "repo".toList "/repodata".toList = false
+    ∧ (∀ s ∈ sections ex00, isImg s = true → ∀ its, items ex00 s = .ok its → ∀ kv ∈ its, relative kv.2 = true) := by
+  refine ⟨by decide +kernel, by decide +kernel, by decide +kernel, by decide +kernel, by decide +kernel, by decide +kernel,
+    by decide +kernel, by decide +kernel, by decide +kernel, by decide +kernel, by decide +kernel, by decide +kernel,
+    by decide +kernel, by decide +kernel, by decide +kernel, ?_⟩
+  intro s hs hi its hit kv hkv
+  have : sections ex00 = ["checksums".toList, "general".toList, "images-x86_64".toList, "images-xen".toList, "stage2".toList] := by
+    decide +kernel
+  rw [this] at hs
+  simp only [List.mem_cons, List.not_mem_nil, or_false] at hs
+  rcases hs with rfl | rfl | rfl | rfl | rfl
+  · exact absurd hi (by decide)
+  · exact absurd hi (by decide)
+  · have : items ex00 "images-x86_64".toList = .ok [("kernel".toList, "images/vmlinuz".toList)] := by decide +kernel
+    rw [this] at hit; cases hit
+    simp only [List.mem_cons, List.not_mem_nil, or_false] at hkv; subst hkv; decide
+  · have : items ex00 "images-xen".toList = .ok [("kernel".toList, "images/xen/vmlinuz".toList)] := by decide +kernel
+    rw [this] at hit; cases hit
+    simp only [List.mem_cons, List.not_mem_nil, or_false] at hkv; subst hkv; decide
+  · exact absurd hi (by decide)
 end PM.TI
